@@ -34,9 +34,15 @@ def step (s : Unit) : List String → Unit × String
       let k : Float := fOfBits 4607182418800017412
       let r := rescaleBox k (a.map fOfBits) (sd.map fOfBits)
       let sh (p : V3 Float) : String := s!"{showF p.x} {showF p.y} {showF p.z}"
-      let gs := gens.foldl (fun acc g => acc ++ " " ++ sh (rescaleP (g.map fOfBits) r.mn r.ext)) ""
+      -- rescaled generators, each followed by its six wall copies in the rescaled box
+      let rs := rescaledSides r
+      let gs := gens.foldl (fun acc g =>
+        let rg := rescaleP (g.map fOfBits) r.mn r.ext
+        let ws := (List.range 6).foldl (fun a w => a ++ " " ++ sh (wallCopy w r.bottom rs rg)) ""
+        acc ++ " " ++ sh rg ++ ws) ""
       (s, s!"box {sh r.bottom} {sh ⟨r.top.x - r.bottom.x, r.top.y - r.bottom.y, r.top.z - r.bottom.z⟩} {sh r.tet.v0} {sh r.tet.v1} {sh r.tet.v2} {sh r.tet.v3}{gs}")
     | _, _ => (s, "bad-op")
+  | ["m", b] => (s, s!"m {mantissa (nat! b)}")      -- get_mantissa of one bit pattern
   | "oe" :: rest =>       -- exact orientation test only, arbitrary bit patterns
     match pts 4 rest with
     | some [a, b, c, d] =>
